@@ -79,6 +79,23 @@ impl Proto {
     pub const fn enabled(self) -> bool {
         proto_enabled(self)
     }
+    /// the protocol the protocol-independent explorations run on: v4.local when it is compiled in, else the
+    /// first compiled-in protocol (feature-configuration builds)
+    pub fn workhorse() -> Proto {
+        if Proto::V4L.enabled() {
+            Proto::V4L
+        } else {
+            Proto::ALL[0]
+        }
+    }
+    /// `self` if compiled in, else the workhorse (lists of hand-picked protocols shrink to what exists)
+    pub fn or_workhorse(self) -> Proto {
+        if self.enabled() {
+            self
+        } else {
+            Proto::workhorse()
+        }
+    }
     /// the feature set this harness was built with, e.g. "v1_local+v4_public" ("all" for the default build)
     pub fn build_config() -> String {
         if Proto::ALL.len() == 8 {
